@@ -385,6 +385,13 @@ def compare(rt, wt, path="", fields=None):
             i += 1
             j += 1
             continue
+        if {a.k, b.k} == {"B", "REP"}:
+            bt, rp = (a, b) if a.k == "B" else (b, a)
+            if bt.w is None and rp.count is None and all(t.k in ("B", "P") and (t.k == "B" or t.w == 1) for t in rp.arms[0]):
+                # a variable byte run on one side, a loop emitting strings/bytes on the other (string tables)
+                i += 1
+                j += 1
+                continue
         if a.k == "SKIP" and a.w and b.k in ("P", "B") and b.w is not None and b.w < a.w:
             # a reader-side skip of n bytes absorbs the writer tokens that fill those n bytes
             tot, jj = 0, j
@@ -517,7 +524,14 @@ def specialise(toks, asg):
             arms = [specialise(a, asg) for a in t.arms]
             rend = [strip_names(flat(a)) for a in arms]
             if len(set(rend)) == 1:
-                out += arms[0]        # all arms put the same bytes on the wire (e.g. `if let Some(x) {x.write()} else {Default.write()}`)
+                # all arms put the same bytes on the wire (e.g. `if let Some(x) {x.write()} else {Default.write()}`);
+                # where the arms name different fields for one slot (union-like layouts) the slot keeps no name
+                merged = list(arms[0])
+                for other in arms[1:]:
+                    for x, y in zip(merged, other):
+                        if x.k in ("P", "B") and y.k in ("P", "B") and x.name != y.name:
+                            x.name = None
+                out += merged
             else:
                 nt = Tok("ALT", cond=t.cond, arms=arms, ln=t.ln)
                 out.append(nt)
